@@ -115,6 +115,16 @@ def _files(rng, i):
             fs["sub/deep/h"] = b"".hex()
     if r() < 0.12:
         fs["emptydir"] = None
+    if r() < 0.08:                       # an empty directory next to files, one level down
+        fs.setdefault("sub", None)
+        fs["sub/e2"] = None
+    if r() < 0.08:                       # a directory that only contains an empty directory
+        fs["only"] = None
+        fs["only/inner"] = None
+    if r() < 0.05:                       # a chain of otherwise empty directories
+        fs["d1"] = None
+        fs["d1/d2"] = None
+        fs["d1/d2/d3"] = None
     if r() < 0.15:
         fs["nested"] = None
         fs["nested/" + FN_SP] = json.dumps({"zz": i}).encode().hex()
@@ -226,6 +236,7 @@ def _one(rng, tier, big=False):
         schema = {"t": "auto_str", "wrong": False, "force": {"flag": "bool"}}
         if rng.random() < 0.5:
             kind = "dir"
+    zip_extra = kind == "zip" and rng.random() < 0.25
     pre = []
     if jobs and rng.random() < 0.2:
         if rng.random() < 0.6:
@@ -240,7 +251,7 @@ def _one(rng, tier, big=False):
         kind = rng.choice(["dir", "zip"])     # inner '..' in tar member names: outside the model's domain
     strip = kind == "dir" and schema["t"] != "none" and rng.random() < (0.5 if u in ("bools", "boolstr") else 0.35)
     return {"universe": u, "jobs": jobs, "asc": rng.random() < 0.6, "kind": kind, "path": path, "schema": schema,
-            "pre": pre, "strip": strip}
+            "pre": pre, "strip": strip or zip_extra}
 
 
 FIXED = [
@@ -278,7 +289,35 @@ FIXED = [
     {"universe": "F20-root-empty", "jobs": [{"sp": typed({"a": 1}), "files": {}}, {"sp": typed({"a": 2}), "files": {}}],
      "asc": True, "kind": "zip", "path": {"t": "call", "names": [".", ""], "mode": "byid_asc"},
      "schema": {"t": "none"}, "pre": [], "strip": False},
+    # F21 (repaired by a52f9e0): empty directories at several depths, all target kinds
+    {"universe": "F21-zip", "jobs": [{"sp": typed({"a": 1}), "files": {"emptydir": None, "sub": None, "sub/g.bin": b"g".hex(), "sub/e2": None, "only": None, "only/inner": None, "d1": None, "d1/d2": None, "d1/d2/d3": None}},
+                                     {"sp": typed({"a": 2}), "files": {"emptydir": None}}],
+     "asc": True, "kind": "zip", "path": {"t": "none"}, "schema": {"t": "none"}, "pre": [], "strip": False},
+    {"universe": "F21-zip", "jobs": [{"sp": typed({"a": 1}), "files": {"emptydir": None, "sub": None, "sub/g.bin": b"g".hex(), "sub/e2": None, "only": None, "only/inner": None, "d1": None, "d1/d2": None, "d1/d2/d3": None}},
+                                     {"sp": typed({"a": 2}), "files": {"emptydir": None}}],
+     "asc": False, "kind": "zip", "path": {"t": "false"}, "schema": {"t": "call", "mode": "faithful"}, "pre": [], "strip": False},
+    {"universe": "F21-dir", "jobs": [{"sp": typed({"a": 1}), "files": {"emptydir": None, "sub": None, "sub/g.bin": b"g".hex(), "sub/e2": None, "only": None, "only/inner": None, "d1": None, "d1/d2": None, "d1/d2/d3": None}},
+                                     {"sp": typed({"a": 2}), "files": {"emptydir": None}}],
+     "asc": True, "kind": "dir", "path": {"t": "none"}, "schema": {"t": "none"}, "pre": [], "strip": False},
+    {"universe": "F21-tar", "jobs": [{"sp": typed({"a": 1}), "files": {"emptydir": None, "sub": None, "sub/g.bin": b"g".hex(), "sub/e2": None, "only": None, "only/inner": None, "d1": None, "d1/d2": None, "d1/d2/d3": None}},
+                                     {"sp": typed({"a": 2}), "files": {"emptydir": None}}],
+     "asc": False, "kind": "tar", "path": {"t": "none"}, "schema": {"t": "none"}, "pre": [], "strip": False},
+    {"universe": "F21-tar.gz", "jobs": [{"sp": typed({"a": 1}), "files": {"emptydir": None, "sub": None, "sub/g.bin": b"g".hex(), "sub/e2": None, "only": None, "only/inner": None, "d1": None, "d1/d2": None, "d1/d2/d3": None}},
+                                     {"sp": typed({"a": 2}), "files": {"emptydir": None}}],
+     "asc": True, "kind": "tar.gz", "path": {"t": "none"}, "schema": {"t": "auto_str", "wrong": False}, "pre": [], "strip": False},
+    {"universe": "F21-zip", "jobs": [{"sp": typed({"a": 1}), "files": {"emptydir": None, "sub": None, "sub/g.bin": b"g".hex(), "sub/e2": None, "only": None, "only/inner": None, "d1": None, "d1/d2": None, "d1/d2/d3": None}},
+                                     {"sp": typed({"a": 2}), "files": {"emptydir": None}}],
+     "asc": True, "kind": "zip", "path": {"t": "none"}, "schema": {"t": "auto_str", "wrong": False}, "pre": [], "strip": False},
     {"universe": "F21", "jobs": [{"sp": typed({"a": 1}), "files": {"emptydir": None}}, {"sp": typed({"a": 2}), "files": {}}],
+     "asc": True, "kind": "zip", "path": {"t": "none"}, "schema": {"t": "none"}, "pre": [], "strip": False},
+    # a foreign empty directory in the archive and a schema string that does / does not match its path
+    {"universe": "zip-foreign-emptydir-matching", "jobs": [{"sp": typed({"a": "p", "b": "q"}), "files": {"emptydir": None}},
+                                                            {"sp": typed({"a": "p", "b": "r"}), "files": {}}],
+     "asc": True, "kind": "zip", "path": {"t": "fmt", "segs": [["key", ["a"]], ["lit", "/"], ["key", ["b"]]]},
+     "schema": {"t": "str", "text": "{a}/{b}"}, "pre": [], "strip": True},
+    {"universe": "zip-foreign-emptydir", "jobs": [{"sp": typed({"a": 1}), "files": {"emptydir": None}}, {"sp": typed({"a": 2}), "files": {}}],
+     "asc": True, "kind": "zip", "path": {"t": "none"}, "schema": {"t": "auto_str", "wrong": False}, "pre": [], "strip": True},
+    {"universe": "F21-single", "jobs": [{"sp": typed({"a": 1}), "files": {"only": None, "only/inner": None}}],
      "asc": True, "kind": "zip", "path": {"t": "none"}, "schema": {"t": "none"}, "pre": [], "strip": False},
     {"universe": "pre-dir", "jobs": [{"sp": typed({"a": v}), "files": {"f.txt": b"new".hex()}} for v in (1, 2, 3)],
      "asc": True, "kind": "dir", "path": {"t": "none"}, "schema": {"t": "none"},
@@ -312,7 +351,7 @@ FIXED = [
 
 def gen_inputs(tier, rng):
     descs = [dict(d) for d in FIXED]
-    n = 221 if tier == "quick" else 6000
+    n = 212 if tier == "quick" else 6000
     for i in range(n):
         descs.append(_one(rng, tier, big=(tier != "quick" and i % 3 == 0) or (tier == "quick" and i % 12 == 0)))
     return descs
@@ -619,6 +658,10 @@ def run_case(desc):
             cschema, schema_txt = "SchNone", None
             calls = {}
             if i_run:
+                if desc["strip"] and mk == "zip":
+                    # an empty-directory member outside every job path (cf. CorrC16.EXTRA)
+                    with zipfile.ZipFile(target, mode="a") as zf:
+                        zf.writestr(zipfile.ZipInfo("zz_outside/empty/"), b"")
                 if desc["strip"] and mk == "dir":
                     for dst in x_map:
                         f = os.path.join(target, os.path.normpath(dst), FN_SP)
@@ -630,6 +673,10 @@ def run_case(desc):
                         schema_txt = derive_schema(x_map[0], sps[ids[0]], s["wrong"], s.get("force"))
                     else:
                         schema_txt = "a/{a:int}"
+                    pyschema = schema_txt
+                    cschema = "(SchStr %s)" % coq_str(schema_txt)
+                elif s["t"] == "str":
+                    schema_txt = s["text"]
                     pyschema = schema_txt
                     cschema = "(SchStr %s)" % coq_str(schema_txt)
                 elif s["t"] == "call":
@@ -711,7 +758,7 @@ def run_case(desc):
             coq_list([coq_job(i, sps[i], job_files[i]) for i in ids], "job"), oracle,
             {"dir": "KDir", "zip": "KZip", "tar": "KTar"}[mk], cspec, cschema,
             coq_list([coq_job(j.id, pre_sps[j.id], pre_files[j.id]) for j in pre_jobs], "job"),
-            coq_bool(desc["strip"] and mk == "dir"),
+            coq_bool(desc["strip"] and mk in ("dir", "zip")),
             coq_exn(x_exn), coq_list([coq_str(x) for x in x_map], "str"), cart, coq_bool(src_same),
             coq_list([coq_str(x) for x in outside], "str"),
             coq_bool(i_run), coq_exn(i_exn), coq_fs(dst_tree), coq_list([coq_str(x) for x in i_outside], "str"))
